@@ -23,6 +23,9 @@ pub enum Target {
     Abs(u64),
     /// effective address = r10 + delta
     Stack(i64),
+    /// effective address = address of the loaded program's own bytes + k (never a region of the
+    /// program's memory: the property lists packet, metadata buffer, stack and registered ranges)
+    Prog(u64),
 }
 
 #[derive(Clone, Debug)]
@@ -93,6 +96,7 @@ pub enum Expect {
 
 fn classify(t: Target, w: u64, regs: &[(&'static str, u64, u64)]) -> Expect {
     match t {
+        Target::Prog(_) => Expect::Outside,
         Target::Stack(d) => {
             if d >= -512 && d + w as i64 <= 0 {
                 Expect::Inside
@@ -139,6 +143,9 @@ pub struct MemCase {
     pub pre_same: u8,
     /// the stored / added value is r10 itself (C11 only: what is stored is an address)
     pub val_r10: bool,
+    /// C02: the program is executed once before (some of) the allowed ranges are registered: 1 = all
+    /// ranges registered after the first execution, 2 = the first range before, the others after
+    pub late_reg: u8,
 }
 
 pub static RET_PTR: std::sync::atomic::AtomicU64 = std::sync::atomic::AtomicU64::new(0);
@@ -187,6 +194,7 @@ pub fn program(c: &MemCase, pkt_addr: u64, pkt_len: usize) -> Option<Vec<I>> {
             p.push(isa::add64i(reg, k as i32));
             true
         }
+        Target::Prog(_) => false, // resolved to Abs by the caller
     };
     // pre_same: run the instruction on a safe address first, then move the address register
     let pre_same = |p: &mut Vec<I>, insn: I| -> bool {
@@ -196,8 +204,30 @@ pub fn program(c: &MemCase, pkt_addr: u64, pkt_len: usize) -> Option<Vec<I>> {
         // the safe address: a stack slot, unless the final address is reached by adding a
         // statically known distance to it (then the packet start, for loads only: a store there
         // would change the memory the oracle watches)
+        if c.pre_same == 5 {
+            // as 4, but the address register is r1 as the VM set it at entry (the context pointer),
+            // so the first iteration addresses [r1+off] and r1 itself is advanced
+            if b != 1 || c.off < 0 || !set_base(p, 9, c.t, c.off as i64) {
+                return false;
+            }
+            p.push(I::new(0x1f, 9, 1, 0, 0)); // sub64 r9, r1
+            p.push(isa::mov64i(4, 0));
+            return true;
+        }
+        if c.pre_same == 4 {
+            // a two-iteration loop whose head is the access: first on a stack slot, then - the
+            // address register advanced by a run-time distance - on the target
+            p.push(isa::stdw(10, -64, 0x0a0b0c0d));
+            if !set_base(p, 9, c.t, c.off as i64) || !set_base(p, b, Target::Stack(-64), c.off as i64) {
+                return false;
+            }
+            p.push(I::new(0x1f, 9, b, 0, 0)); // sub64 r9, b: distance from the safe to the final base
+            p.push(isa::mov64i(4, 0));
+            return true;
+        }
         let is_load = matches!(c.acc, Acc::Ldx);
         let (safe, delta): (Target, Option<i64>) = match c.t {
+            Target::Prog(_) => return false,
             Target::Stack(d) => (Target::Stack(-64), Some(d + 64)),
             Target::Abs(ea) if c.pre_same == 2 => {
                 if pkt_len < 8 || !is_load {
@@ -230,6 +260,14 @@ pub fn program(c: &MemCase, pkt_addr: u64, pkt_len: usize) -> Option<Vec<I>> {
             }
         }
     };
+    // pre_same == 4: close the loop after the access (the access is the loop head)
+    let loop_tail = |p: &mut Vec<I>| {
+        if c.pre_same >= 4 {
+            p.push(I::new(0x0f, b, 9, 0, 0)); // add64 b, r9
+            p.push(isa::add64i(4, 1));
+            p.push(I::new(0xa5, 4, 0, -4, 2)); // jlt r4, 2, back to the access
+        }
+    };
     let mut stack_reload: Option<i64> = None;
     match c.acc {
         Acc::Ldx => {
@@ -253,6 +291,7 @@ pub fn program(c: &MemCase, pkt_addr: u64, pkt_len: usize) -> Option<Vec<I>> {
                 p.push(I::new(0x71, 9, b, c.off, 0));
             }
             p.push(I::new(opc, 8, b, c.off, 0));
+            loop_tail(&mut p);
             p.push(isa::mov64r(0, 8));
         }
         Acc::St | Acc::Stx | Acc::Xadd => {
@@ -286,6 +325,7 @@ pub fn program(c: &MemCase, pkt_addr: u64, pkt_len: usize) -> Option<Vec<I>> {
                 Acc::St => p.push(I::new(opc, b, 0, c.off, STORE_IMM)),
                 _ => p.push(I::new(opc, b, vreg, c.off, 0)),
             }
+            loop_tail(&mut p);
             if c.r10_shift != 0 {
                 p.push(isa::add64i(10, -c.r10_shift));
             }
@@ -310,7 +350,19 @@ pub fn program(c: &MemCase, pkt_addr: u64, pkt_len: usize) -> Option<Vec<I>> {
             // imm = off (as a small non-negative immediate), src = idx - imm
             let idx = ea.wrapping_sub(pkt_addr);
             let imm = if b == 7 && (5..=i32::MAX as u64).contains(&idx) { (idx - 5) as i32 } else { (c.off as i32).rem_euclid(4096) };
-            if c.pre_same != 0 {
+            if c.pre_same == 4 {
+                // the ldind is the head of a two-iteration loop: src = 0 first, then src advanced
+                if (imm as i64) < 0 || imm as usize + c.w as usize > pkt_len {
+                    return None;
+                }
+                p.extend(isa::lddw(b, 0));
+                p.extend(isa::lddw(9, idx.wrapping_sub(imm as u64)));
+                p.push(isa::mov64i(4, 0));
+                p.push(I::new(opc, 0, b, 0, imm));
+                loop_tail(&mut p);
+                p.push(isa::EXIT);
+                return Some(p);
+            } else if c.pre_same != 0 {
                 // the same ldind on packet byte `imm` first (src = 0), then src moves
                 if c.pre_same > 2 || (imm as i64) < 0 || imm as usize + c.w as usize > pkt_len {
                     return None;
@@ -340,6 +392,7 @@ pub fn program(c: &MemCase, pkt_addr: u64, pkt_len: usize) -> Option<Vec<I>> {
 fn first_byte(c: &MemCase, a: &Arena) -> Option<u8> {
     match c.t {
         Target::Abs(ea) => expected_load(a, ea, 1).map(|v| v as u8),
+        Target::Prog(_) => None,
         Target::Stack(d) => {
             if !(-512..0).contains(&d) {
                 return None;
@@ -378,8 +431,8 @@ fn case_json(c: &MemCase, l: &Layout, eng: Eng, a: &Arena) -> Value {
         }
         json!({"abs": format!("{ea:#x}")})
     };
-    json!({"kind":"mem","eng":eng.name(),"acc":format!("{:?}", c.acc),"w":c.w,"off":c.off,"base":c.base,"pre_narrow":c.pre_narrow,"pre_store":c.pre_store,"r10_shift":c.r10_shift,"pre_same":c.pre_same,"val_r10":c.val_r10,
-           "target": match c.t { Target::Abs(ea) => rel(ea), Target::Stack(d) => json!({"rel":"stack","delta":d}) },
+    json!({"kind":"mem","eng":eng.name(),"acc":format!("{:?}", c.acc),"w":c.w,"off":c.off,"base":c.base,"pre_narrow":c.pre_narrow,"pre_store":c.pre_store,"r10_shift":c.r10_shift,"pre_same":c.pre_same,"val_r10":c.val_r10,"late_reg":c.late_reg,
+           "target": match c.t { Target::Abs(ea) => rel(ea), Target::Stack(d) => json!({"rel":"stack","delta":d}), Target::Prog(k) => json!({"rel":"prog","delta":k}) },
            "layout": {"vm": vm::kind_name(l.kind), "pkt": l.pkt_len, "mb": l.mb_len, "allowed": l.allowed}})
 }
 
@@ -389,6 +442,7 @@ fn target_from_json(v: &Value, a: &Arena) -> Target {
         let d = t["delta"].as_i64().unwrap();
         match r {
             "stack" => Target::Stack(d),
+            "prog" => Target::Prog(d as u64),
             "packet" => Target::Abs(a.pkt.addr().wrapping_add(d as u64)),
             "mbuff" => Target::Abs(a.mb.addr().wrapping_add(d as u64)),
             _ => Target::Abs(a.al.addr().wrapping_add(d as u64)),
@@ -406,6 +460,7 @@ fn where_class(c: &MemCase, l: &Layout, a: &Arena) -> String {
     // which region edge is the access near (for the signature)
     match c.t {
         Target::Stack(_) => "stack".into(),
+        Target::Prog(_) => "program-image".into(),
         Target::Abs(ea) => {
             for (n, s, e) in regions(l, a) {
                 if ea.wrapping_sub(s) as i64 >= -16 && (ea.wrapping_sub(e) as i64) <= 16 {
@@ -421,6 +476,40 @@ fn where_class(c: &MemCase, l: &Layout, a: &Arena) -> String {
             }
         }
     }
+}
+
+/// pre_same == 5: the first iteration of the loop is the same access on [r1+off], i.e. on the start
+/// of the packet (raw VM) or of the metadata buffer (metadata VM). Returns false when that first
+/// access would not be in bounds (the case is then not generated); for store-type accesses the
+/// expected effect of the first iteration is applied to the snapshot `before`.
+fn first_iteration_on_ctx(c: &MemCase, l: &Layout, before: &mut [u8]) -> bool {
+    let (base, len) = match l.kind {
+        VmKind::Raw => (0usize, l.pkt_len),
+        VmKind::Mbuff => (l.pkt_len, l.mb_len),
+        _ => return false,
+    };
+    if c.off < 0 || c.off as usize + c.w as usize > len || matches!(c.acc, Acc::LdAbs | Acc::LdInd) {
+        return false;
+    }
+    if matches!(c.acc, Acc::Xadd) && c.off as usize % c.w as usize != 0 {
+        return false;
+    }
+    let o = base + c.off as usize;
+    let w = c.w as usize;
+    let mut old = 0u64;
+    for k in 0..w {
+        old |= (before[o + k] as u64) << (8 * k);
+    }
+    let val = match c.acc {
+        Acc::St => STORE_IMM as i64 as u64,
+        Acc::Stx => STORE_REG,
+        Acc::Xadd => if w == 4 { (old as u32).wrapping_add(STORE_REG as u32) as u64 } else { old.wrapping_add(STORE_REG) },
+        _ => return true,
+    };
+    for k in 0..w {
+        before[o + k] = (val >> (8 * k)) as u8;
+    }
+    true
 }
 
 fn accept_all(_p: &[u8]) -> Result<(), std::io::Error> {
@@ -453,8 +542,29 @@ pub fn c02_check(s: &mut Sink, c: &MemCase, l: &Layout, a: &Arena) {
 }
 
 fn c02_check_once(s: &mut Sink, c: &MemCase, l: &Layout, a: &Arena, first: bool) {
-    let Some(prog) = program(c, a.pkt.addr(), if matches!(l.kind, VmKind::NoData) { 0 } else { l.pkt_len }) else { return };
-    let bytes = isa::enc(&prog);
+    let plen = if matches!(l.kind, VmKind::NoData) { 0 } else { l.pkt_len };
+    // Target::Prog: the address of the program image is known once its buffer exists: build the
+    // program with a placeholder, then again - same length - with the real address, into the same
+    // (8-aligned) buffer, which is the one handed to the VM
+    let mut prog_store: Vec<u64> = vec![];
+    let enc_bytes: Vec<u8>;
+    let bytes: &[u8] = if let Target::Prog(k) = c.t {
+        let Some(p0) = program(&MemCase { t: Target::Abs(0), ..*c }, a.pkt.addr(), plen) else { return };
+        let n = p0.len() * 8;
+        prog_store.resize(p0.len(), 0);
+        let ea = prog_store.as_ptr() as u64 + k.min(n as u64 - 8);
+        let Some(p1) = program(&MemCase { t: Target::Abs(ea), ..*c }, a.pkt.addr(), plen) else { return };
+        let enc = isa::enc(&p1);
+        assert_eq!(enc.len(), n);
+        unsafe {
+            std::ptr::copy_nonoverlapping(enc.as_ptr(), prog_store.as_mut_ptr() as *mut u8, n);
+            std::slice::from_raw_parts(prog_store.as_ptr() as *const u8, n)
+        }
+    } else {
+        let Some(prog) = program(c, a.pkt.addr(), plen) else { return };
+        enc_bytes = isa::enc(&prog);
+        &enc_bytes
+    };
     let regs = regions(l, a);
     let exp = classify(c.t, c.w as u64, &regs);
     if first {
@@ -471,23 +581,40 @@ fn c02_check_once(s: &mut Sink, c: &MemCase, l: &Layout, a: &Arena, first: bool)
     a.init();
     let before = a.snapshot();
     let rp = || case_json(c, l, Eng::Interp, a);
+    let mut before = before;
+    if c.pre_same == 5 && !first_iteration_on_ctx(c, l, &mut before) {
+        return;
+    }
     let r = catch(|| {
-        let mut vm = make_vm(l.kind, &bytes, c.r10_shift != 0)?;
+        let mut vm = make_vm(l.kind, bytes, c.r10_shift != 0)?;
         if c.pre_same == 3 {
             if let Target::Abs(ea) = c.t {
                 RET_PTR.store(ea.wrapping_sub(c.off as i64 as u64), std::sync::atomic::Ordering::Relaxed);
             }
             vm.register_helper(7, ret_ptr_helper)?;
         }
-        for (_, st, en) in regs.iter().filter(|r| r.0 == "allowed") {
-            vm.register_allowed_memory(*st..*en);
-        }
         let mem = if matches!(l.kind, VmKind::NoData) { vm::empty_raw() } else { (a.pkt.ptr, l.pkt_len) };
         let mb = if matches!(l.kind, VmKind::Mbuff) { a.mb.raw() } else { vm::empty_raw() };
+        let al: Vec<_> = regs.iter().filter(|r| r.0 == "allowed").collect();
+        let early = match c.late_reg { 0 => al.len(), 1 => 0, _ => 1.min(al.len()) };
+        for (_, st, en) in al.iter().take(early) {
+            vm.register_allowed_memory(*st..*en);
+        }
+        if c.late_reg != 0 {
+            // a first execution with only some of the ranges registered; its outcome is not the
+            // subject (it may be refused), the buffers are restored afterwards
+            let _ = vm.exec(Eng::Interp, mem, mb);
+            a.init();
+            before = a.snapshot();
+            for (_, st, en) in al.iter().skip(early) {
+                vm.register_allowed_memory(*st..*en);
+            }
+        }
         vm.exec(Eng::Interp, mem, mb)
     });
     s.count("traces_validated_against_impl", 1);
     let near = match c.t {
+        Target::Prog(_) => true,
         Target::Stack(d) => (-520..=8).contains(&d),
         Target::Abs(ea) => regs.iter().any(|(_, st, en)| (ea.wrapping_sub(*st) as i64).unsigned_abs() <= 9 || (ea.wrapping_sub(*en) as i64).unsigned_abs() <= 9),
     };
@@ -628,7 +755,10 @@ pub fn c11_check(s: &mut Sink, c: &MemCase, l: &Layout, a: &Arena) {
         return;
     }
     a.init();
-    let before = a.snapshot();
+    let mut before = a.snapshot();
+    if c.pre_same == 5 && !first_iteration_on_ctx(c, l, &mut before) {
+        return;
+    }
     let rp = || case_json(c, l, Eng::Cl, a);
     let class = format!("{}@{}", acc_name(c), where_class(c, l, a));
     let compiled = catch(|| {
@@ -661,6 +791,7 @@ pub fn c11_check(s: &mut Sink, c: &MemCase, l: &Layout, a: &Arena) {
     });
     s.count("traces_validated_against_impl", 1);
     let near = match c.t {
+        Target::Prog(_) => true,
         Target::Stack(d) => (-520..=8).contains(&d),
         Target::Abs(ea) => regs.iter().any(|(_, st, en)| (ea.wrapping_sub(*st) as i64).unsigned_abs() <= 9 || (ea.wrapping_sub(*en) as i64).unsigned_abs() <= 9),
     };
@@ -705,7 +836,7 @@ pub fn c11_check(s: &mut Sink, c: &MemCase, l: &Layout, a: &Arena) {
                         s.violation(&format!("cranelift/{class}/loaded-value-mismatch"), format!("loaded {v:#x}, memory holds {want:#x}"), rp());
                     }
                 }
-                (Acc::St | Acc::Stx | Acc::Xadd, Target::Abs(_)) if !c.val_r10 => {
+                (Acc::St | Acc::Stx | Acc::Xadd, Target::Abs(_)) if !c.val_r10 && c.pre_same != 5 => {
                     // (with r10 as the value the stored bytes are an address: they may coincide with
                     // what is there)
                     if after == before {
@@ -808,6 +939,7 @@ pub fn run(s: &mut Sink, cranelift: bool) {
     s.meta.insert("alphabet".into(), json!({
         "accesses": "ldx/st/stx/ldabs/ldind x 1,2,4,8 bytes; xadd x 4,8 (naturally aligned only - misalignment is C18's)",
         "addresses": "per region: start+k and end+k for k in -9..=8, start+2^63; 0,1,7,8; u64::MAX-k (k<9); stack: r10+d for d in -521..=-503, -9..=8, -256",
+        "also": "the same access as the head of a two-iteration loop (first on a safe slot, then on the target); C02: the program image as a target, ranges registered after a first execution",
         "reached_as": "base register + every offset in O16 (12 values) and offset 0; base registers r6 and r7; ldabs immediate / ldind src+imm; C11 also: the access preceded by a 1-byte load through the same base register and offset in the same basic block",
         "layouts": ls.len(),
     }));
@@ -836,6 +968,7 @@ pub fn run(s: &mut Sink, cranelift: bool) {
                     let al = match t {
                         Target::Abs(ea) => ea % (*w as u64) == 0,
                         Target::Stack(d) => d.rem_euclid(*w as i64) == 0,
+                        Target::Prog(k) => k % (*w as u64) == 0,
                     };
                     if !al {
                         continue;
@@ -853,14 +986,17 @@ pub fn run(s: &mut Sink, cranelift: bool) {
                         if matches!(acc, Acc::LdAbs) && (off != 0 || base != 6) {
                             continue;
                         }
-                        let c = MemCase { acc: *acc, w: *w, t: *t, off, base, pre_narrow: false, pre_store: None, r10_shift: 0, pre_same: 0, val_r10: false };
+                        let c = MemCase { acc: *acc, w: *w, t: *t, off, base, pre_narrow: false, pre_store: None, r10_shift: 0, pre_same: 0, val_r10: false, late_reg: 0 };
                         if cranelift && matches!(acc, Acc::Stx | Acc::Xadd) && base == 6 {
                             c11_check(s, &MemCase { val_r10: true, ..c }, l, &a);
                         }
                         // the same instruction on a safe address first, then the address register moves
                         if base == 6 && !matches!(acc, Acc::LdAbs) && (off == 0 || off == 8 || thorough) {
-                            for ps in 1..=3u8 {
-                                let c4 = MemCase { pre_same: ps, base: if ps == 3 { 0 } else { 6 }, ..c };
+                            for ps in 1..=5u8 {
+                                if ps == 5 && !(matches!(l.kind, VmKind::Raw | VmKind::Mbuff) && off >= 0) {
+                                    continue;
+                                }
+                                let c4 = MemCase { pre_same: ps, base: match ps { 3 => 0, 5 => 1, _ => 6 }, ..c };
                                 if cranelift { c11_check(s, &c4, l, &a) } else { c02_check(s, &c4, l, &a) }
                             }
                         }
@@ -885,6 +1021,11 @@ pub fn run(s: &mut Sink, cranelift: bool) {
                         } else {
                             s.mark(idx, &format!("interp/{}@{}", acc_name(&c), where_class(&c, l, &a)), &rp);
                             c02_check(s, &c, l, &a);
+                            // the program has been executed once before (some of) the ranges are registered
+                            if !l.allowed.is_empty() && off == 0 && base == 6 && where_class(&c, l, &a) == "allowed" {
+                                c02_check(s, &MemCase { late_reg: 1, ..c }, l, &a);
+                                c02_check(s, &MemCase { late_reg: 2, ..c }, l, &a);
+                            }
                             // the same access right after a narrower one of the same kind at the same
                             // address (when that byte is inside a region)
                             if *w > 1 && (base == 6 || thorough) {
@@ -912,6 +1053,21 @@ pub fn run(s: &mut Sink, cranelift: bool) {
     s.done("access x address x layout");
     if cranelift && s.take(g) {
         c11_alias(s);
+    }
+    g += 1;
+    if !cranelift && s.take(g) {
+        // the program's own bytes are not part of the program's memory
+        for l in ls.iter().filter(|l| l.pkt_len == 16 && l.allowed.len() <= 2) {
+            let a = Arena::new(l);
+            for (acc, w) in fs.iter().filter(|f| !matches!(f.0, Acc::LdAbs | Acc::LdInd)) {
+                for k in [0u64, 8, 16, 24] {
+                    let c = MemCase { acc: *acc, w: *w, t: Target::Prog(k), off: 0, base: 6, pre_narrow: false, pre_store: None, r10_shift: 0, pre_same: 0, val_r10: false, late_reg: 0 };
+                    c02_check(s, &c, l, &a);
+                    c02_check(s, &MemCase { off: 8, ..c }, l, &a);
+                }
+            }
+        }
+        s.done("accesses aimed at the program image");
     }
 }
 
@@ -997,7 +1153,7 @@ pub fn replay(v: &Value) -> Vec<String> {
         "LdAbs" => Acc::LdAbs,
         _ => Acc::LdInd,
     };
-    let c = MemCase { acc, w: v["w"].as_u64().unwrap() as u8, t: target_from_json(v, &a), off: v["off"].as_i64().unwrap() as i16, base: v["base"].as_u64().unwrap() as u8, pre_narrow: v["pre_narrow"].as_bool().unwrap_or(false), pre_store: v["pre_store"].as_u64().map(|x| x as u8), r10_shift: v["r10_shift"].as_i64().unwrap_or(0) as i32, pre_same: v["pre_same"].as_u64().unwrap_or(0) as u8, val_r10: v["val_r10"].as_bool().unwrap_or(false) };
+    let c = MemCase { acc, w: v["w"].as_u64().unwrap() as u8, t: target_from_json(v, &a), off: v["off"].as_i64().unwrap() as i16, base: v["base"].as_u64().unwrap() as u8, pre_narrow: v["pre_narrow"].as_bool().unwrap_or(false), pre_store: v["pre_store"].as_u64().map(|x| x as u8), r10_shift: v["r10_shift"].as_i64().unwrap_or(0) as i32, pre_same: v["pre_same"].as_u64().unwrap_or(0) as u8, val_r10: v["val_r10"].as_bool().unwrap_or(false), late_reg: v["late_reg"].as_u64().unwrap_or(0) as u8 };
     let mut s = Sink::new("replay", Tier::Quick, 0, 1, None, None, 3600);
     if v["eng"] == "cranelift" {
         c11_check(&mut s, &c, &l, &a);
